@@ -1967,7 +1967,16 @@ func (db *DatabaseCollectionWithUser) ResyncDocument(ctx context.Context, docid 
 	var updatedDoc *Document
 	var updatedExpiry *uint32
 	var unusedSequences []uint64
+	// allocatedSequence is the sequence assigned by the most recent invocation of writeUpdateFunc when regenerating
+	// sequences. It is only stored if that invocation's write succeeds.
+	var allocatedSequence uint64
 	writeUpdateFunc := func(currentValue []byte, currentXattrs map[string][]byte, cas uint64) (sgbucket.UpdatedDoc, error) {
+		// If this is a retry after a CAS failure, the sequence assigned by the previous invocation was never stored
+		// and will not be reused, so release it.
+		if allocatedSequence > 0 {
+			db.releaseSequences(ctx, []uint64{allocatedSequence})
+			allocatedSequence = 0
+		}
 		// resyncDocument is not called on tombstoned documents, so this value will only be empty if the document was
 		// deleted between DCP event and calling this function. In any case, we do not need to update it.
 		if len(currentValue) == 0 {
@@ -1980,6 +1989,9 @@ func (db *DatabaseCollectionWithUser) ResyncDocument(ctx context.Context, docid 
 		updatedDoc, unusedSequences, err = db.getResyncedDocument(ctx, doc, regenerateSequences)
 		if err != nil {
 			return sgbucket.UpdatedDoc{}, err
+		}
+		if regenerateSequences {
+			allocatedSequence = updatedDoc.Sequence
 		}
 		base.TracefCtx(ctx, base.KeyAccess, "Saving updated channels and access grants of %q on resync", base.UD(docid))
 
@@ -2005,6 +2017,10 @@ func (db *DatabaseCollectionWithUser) ResyncDocument(ctx context.Context, docid 
 	mutateInOpts := sgbucket.MutateInOptions{}
 	var expiry uint32
 	_, err := db.dataStore.WriteUpdateWithXattrs(ctx, docid, db.syncGlobalSyncMouRevSeqNoAndUserXattrKeys(), expiry, previousDoc, &mutateInOpts, writeUpdateFunc)
+	// For timeout errors the write may or may not have succeeded, so the sequence cannot be released as unused.
+	if err != nil && allocatedSequence > 0 && !base.IsTimeoutError(err) {
+		db.releaseSequences(ctx, []uint64{allocatedSequence})
+	}
 	if err == nil {
 		base.Audit(ctx, base.AuditIDDocumentResync, base.AuditFields{
 			base.AuditFieldDocID:      docid,
